@@ -35,6 +35,9 @@ MUTATIONS = {
                                          "        location, offset = window_fn(relative_window=None, chunk_relative_coordinates=False)\n"),
     # dictionary form of a transcript takes the CDS blocks from the chunk-relative view
     "c07-to-dict-cds-from-chunk": (["C07"], T, "                cds_starts = self.cds._genomic_starts\n", "                cds_starts = [x.start for x in self.chunk_relative_cds_blocks]\n"),
+    # the transcript constructor voids a CDS that has no base in the chunk (the anchored "CDS dropped when sliced out" branch made live)
+    "c07-transcript-drops-sliced-out-cds": (["C07"], T, "            except LocationOverlapException:\n                self.cds = None\n",
+                                            "            except LocationOverlapException:\n                self.cds = None\n            if self.cds is not None and self.cds.chunk_relative_location.is_empty:\n                self.cds = None\n"),
     # computed identifier of a leaf class digests chunk-relative coordinates (the K8 mechanism moved into CDSInterval)
     "c07-cds-guid-digests-chunk-blocks": (["C07"], C, "            self.guid = digest_object(\n                self._genomic_starts,\n                self._genomic_ends,\n                self.strand,\n                self.frames,\n",
                                           "            self.guid = digest_object(\n                [x.start for x in self._location.blocks] if not self._location.is_empty else [],\n                self._genomic_ends,\n                self.strand,\n                self.frames,\n"),
